@@ -32,6 +32,7 @@ os.environ["PATH"] = os.pathsep.join(d for d in os.environ.get("PATH", "").split
 
 with contextlib.redirect_stdout(io.StringIO()):
     import functional_algorithms as fa
+    import functional_algorithms.apmath_algorithms  # noqa: F401  (fa.apmath_algorithms: the lax configuration)
     from functional_algorithms import expr as fa_expr
 
 TARGETS = ["python", "numpy", "cpp", "stablehlo", "xla_client"]
@@ -80,11 +81,126 @@ SYN = dict(syn_nested=(syn_nested, [(":float", ":float")], ["python", "numpy", "
            syn_numbers=(syn_numbers, [(":float",)], ["xla_client"]))
 
 
+# ---- the configuration of tools/generate_apmath_lax.py: target lax, paths=[apmath_algorithms], context parameter
+# dtypes=[float64, float32, float16], arguments "<name>:ArrayLike", graph.rewrite(lax, fa.rewrite, fa.rewrite).
+# It is the only shipped configuration that exercises Context.dtype_index / find_dtype_index / same_dtype_cache.
+
+def _apx_chain(ctx, x, y, z):
+    # same-dtype relation declared pairwise and NOT complete: x~y (two_prod), z~y (two_sum); the dtype index is
+    # first created for x and later requested for z
+    h, l = fa.apmath.two_prod(ctx, x, y, scale=True, fix_overflow=True)
+    s, t = fa.apmath.two_sum(ctx, z, y, fix_overflow=True)
+    return ctx(h + l + s + t)
+
+
+def _apx_chain_rev(ctx, x, y, z):
+    s, t = fa.apmath.two_sum(ctx, z, y, fix_overflow=True)
+    h, l = fa.apmath.two_prod(ctx, x, y, scale=True, fix_overflow=True)
+    return ctx(h + l + s + t)
+
+
+def _apx_chain_deadend(ctx, x, y, z, w):
+    # w~y first (no index needed), then x~y (index created for x), then z~y and the index is requested for z:
+    # the search from z reaches y whose FIRST peer w is a dead end
+    s1, t1 = fa.apmath.two_sum(ctx, w, y, fix_overflow=False)
+    h, l = fa.apmath.two_prod(ctx, x, y, scale=True, fix_overflow=True)
+    s, t = fa.apmath.two_sum(ctx, z, y, fix_overflow=True)
+    return ctx(s1 + t1 + h + l + s + t)
+
+
+def _apx_mul2(ctx, a, b, c, d):
+    return fa.apmath.multiply(ctx, [a, b], [c, d], functional=True, size=2)
+
+
+def _apx_join(ctx, x, y, z, w):
+    # two classes {x,y} and {z,w}, each with its own cached dtype index, joined afterwards by y~w; the index then
+    # requested for y can be reached through x or through w->z: the answer depended on set iteration order before 05234cd
+    h1, l1 = fa.apmath.two_prod(ctx, x, y, scale=True, fix_overflow=True)
+    h2, l2 = fa.apmath.two_prod(ctx, z, w, scale=True, fix_overflow=True)
+    s, t = fa.apmath.two_sum(ctx, w, y, fix_overflow=True)
+    h3, l3 = fa.apmath.two_prod(ctx, y, w, scale=True, fix_overflow=True)
+    return ctx(h1 + l1 + h2 + l2 + s + t + h3 + l3)
+
+
+def _dtype_two_indices(ctx, a, b, c, d, e):
+    lst = ctx.list([a, b, c])
+    r = ctx.item(lst, ctx.dtype_index(a)) + ctx.item(lst, ctx.dtype_index(b)) + ctx.item(lst, ctx.dtype_index(d))
+    ctx._assume_same_dtype(a, c, b, d)
+    ctx._assume_same_dtype(e, c)
+    return r + ctx.item(lst, ctx.dtype_index(c)) + ctx.item(lst, ctx.dtype_index(e))
+
+
+def _dtype_graph(decls_before, first, decls_after, asked):
+    """User-level algorithm over explicit primitives: pairwise `_assume_same_dtype` declarations, the dtype index is
+    created for `first` (between the two groups of declarations) and afterwards requested for every name in `asked`."""
+
+    def f(ctx, a, b, c, d, e):
+        env = dict(a=a, b=b, c=c, d=d, e=e)
+        for u, v in decls_before:
+            ctx._assume_same_dtype(env[u], env[v])
+        lst = ctx.list([a, b, c])
+        r = ctx.item(lst, ctx.dtype_index(env[first]))
+        for u, v in decls_after:
+            ctx._assume_same_dtype(env[u], env[v])
+        for n in asked:
+            r = r + ctx.item(lst, ctx.dtype_index(env[n]))
+        return r
+
+    return f
+
+
+_A5 = tuple(f"{n}:ArrayLike" for n in "abcde")
+_FMA = ("x:ArrayLike", "y:ArrayLike", "z:ArrayLike")
+APX = {}
+
+
+def _apx_table():
+    if APX:
+        return APX
+    two = ("x:ArrayLike", "y:ArrayLike")
+    APX.update(
+        # the six functions shipped by tools/generate_apmath_lax.py
+        two_sum_unsafe=(fa.apmath.two_sum, two, dict(fix_overflow=False, assume_fma=False)),
+        two_sum_general=(fa.apmath.two_sum, two, dict(fix_overflow=True, assume_fma=False)),
+        two_prod_unsafe=(fa.apmath.two_prod, two, dict(scale=False, fix_overflow=False, assume_fma=False)),
+        two_prod_general=(fa.apmath.two_prod, two, dict(scale=True, fix_overflow=True, assume_fma=False)),
+        fma_unsafe=(fa.apmath.fma, _FMA, dict(fix_overflow=False, assume_fma=False, algorithm="apmath", functional=True,
+                                             scale=False, size=None, possibly_zero_z=False)),
+        fma_general=(fa.apmath.fma, _FMA, dict(fix_overflow=True, assume_fma=False, algorithm="a7", functional=True,
+                                               scale=True, size=None, possibly_zero_z=True)),
+        # incomplete pairwise same-dtype relations
+        chain=(_apx_chain, _FMA, {}),
+        chain_rev=(_apx_chain_rev, _FMA, {}),
+        chain_deadend=(_apx_chain_deadend, tuple(f"{n}:ArrayLike" for n in "xyzw"), {}),
+        fma_apmath_general=(fa.apmath.fma, _FMA, dict(fix_overflow=True, assume_fma=False, algorithm="apmath", functional=True,
+                                                      scale=True, size=None, possibly_zero_z=True)),
+        mul2=(_apx_mul2, tuple(f"{n}:ArrayLike" for n in "abcd"), {}),
+        # several cached indices inside one class (hash-seed sensitive before 05234cd; no structural clause)
+        join=(_apx_join, tuple(f"{n}:ArrayLike" for n in "xyzw"), {}),
+        g_two_indices=(_dtype_two_indices, _A5, {}),
+        # explicit declaration graphs (all five arguments end up in ONE same-dtype class)
+        g_path=(_dtype_graph([("a", "b"), ("b", "c"), ("c", "d"), ("d", "e")], "a", [], "edcb"), _A5, {}),
+        g_path_late=(_dtype_graph([("c", "d"), ("d", "e")], "a", [("b", "c"), ("a", "b")], "ecdb"), _A5, {}),
+        g_deadend=(_dtype_graph([("b", "e"), ("b", "d"), ("b", "c"), ("a", "b")], "a", [], "cde"), _A5, {}),
+        g_star_last=(_dtype_graph([("c", "b"), ("c", "d"), ("c", "e")], "a", [("c", "a")], "bde"), _A5, {}),
+        g_two_hops=(_dtype_graph([("d", "e"), ("d", "c"), ("c", "b")], "a", [("c", "a")], "edb"), _A5, {}),
+    )
+    return APX
+
+
+def is_apx(fname):
+    return fname.startswith("apx:")
+
+
 def resolve(tn, fname, i):
+    """target, function, positional trace arguments, keyword trace arguments."""
     target = getattr(fa.targets, tn)
+    if is_apx(fname):
+        func, args, kw = _apx_table()[fname[4:]]
+        return target, func, args, dict(kw, override_name=fname[4:])
     if fname in SYN:
-        return target, SYN[fname][0], SYN[fname][1][i]
-    return target, getattr(fa.algorithms, fname), target.trace_arguments[fname][i]
+        return target, SYN[fname][0], SYN[fname][1][i], {}
+    return target, getattr(fa.algorithms, fname), target.trace_arguments[fname][i], {}
 
 
 def all_requests():
@@ -98,17 +214,63 @@ def all_requests():
         for tn in tns:
             for i in range(len(sigs)):
                 out.append([tn, fname, i])
+    for name in _apx_table():
+        out.append(["lax", "apx:" + name, 0])
     return out
 
 
 def new_context(tn):
+    if tn == "lax":
+        import numpy
+
+        return fa.Context(paths=[fa.apmath_algorithms], parameters=dict(dtypes=[numpy.float64, numpy.float32, numpy.float16]))
     kw = dict(enable_alt=True, default_constant_type="FloatType") if tn == "xla_client" else {}
     return fa.Context(paths=[fa.algorithms], **kw)
 
 
+def trace_only(ctx, tn, fname, i):
+    _target, func, sig, kw = resolve(tn, fname, i)
+    return ctx.trace(func, *sig, **kw)
+
+
+def rewrite_only(g, tn):
+    target = getattr(fa.targets, tn)
+    if tn == "lax":
+        return g.rewrite(target, fa.rewrite, fa.rewrite)
+    return g.rewrite(target, fa.rewrite)
+
+
 def trace_rewrite(ctx, tn, fname, i):
-    target, func, sig = resolve(tn, fname, i)
-    return ctx.trace(func, *sig).rewrite(target, fa.rewrite)
+    return rewrite_only(trace_only(ctx, tn, fname, i), tn)
+
+
+_LAST = {}
+
+
+def dtype_struct(ctx, graph, text):
+    """Structural clause (no luck with hash seeds needed): within one class of arguments that were (transitively)
+    declared same-dtype, the text takes `_np_dtypes.index(<arg>.dtype.type)` of at most ONE argument, provided at most
+    one index existed before the class was complete (true for every request of this harness)."""
+    cache = ctx.parameters.get("same_dtype_cache") or {}
+    args = [a for a in graph.operands[1:-1] if a.kind == "symbol"]
+    names = {a.key: a.operands[0] for a in args}
+    seen, classes = set(), []
+    for a in args:
+        if a.key in seen:
+            continue
+        comp, todo = [], [a.key]
+        while todo:
+            k = todo.pop()
+            if k in seen:
+                continue
+            seen.add(k)
+            if k in names:
+                comp.append(names[k])
+            todo.extend(cache.get(k, ()))
+        classes.append(sorted(comp))
+    used = sorted(set(re.findall(r"_np_dtypes\.index\((\w+)\.dtype\.type\)", text)))
+    bad = [c for c in classes if len([u for u in used if u in c]) > 1]
+    return dict(classes=classes, index_args=used, ok=not bad, declared={names.get(k, "?"): [names.get(j, "?") for j in v] for k, v in cache.items() if k in names})
 
 
 def text_of(thunk):
@@ -129,8 +291,13 @@ def generate(req):
 
     def thunk():
         ctx = new_context(tn)
-        return trace_rewrite(ctx, tn, fname, i).tostring(target)
+        g = trace_rewrite(ctx, tn, fname, i)
+        t = g.tostring(target)
+        _LAST.clear()
+        _LAST.update(ctx=ctx, graph=g, text=t)
+        return t
 
+    _LAST.clear()
     return text_of(thunk)
 
 
@@ -158,8 +325,11 @@ def mode_sha(doc):
         tn, fname, i = req
         target = getattr(fa.targets, tn)
         texts = []
+        struct = None
         if kind == "plain":
             texts.append(generate(req))
+            if tn == "lax" and _LAST and fname[4:] not in ("join", "g_two_indices"):
+                struct = dtype_struct(_LAST["ctx"], _LAST["graph"], _LAST["text"])
         elif kind == "fresh-twice":
             texts.append(generate(req))
             texts.append(generate(req))
@@ -181,11 +351,10 @@ def mode_sha(doc):
                 ctx = new_context(tn)
                 if others:
                     generate(others[0])
-                _t, func, sig = resolve(tn, fname, i)
-                g = ctx.trace(func, *sig)
+                g = trace_only(ctx, tn, fname, i)
                 if len(others) > 1:
                     generate(others[1])
-                g = g.rewrite(target, fa.rewrite)
+                g = rewrite_only(g, tn)
                 if len(others) > 2:
                     # another context is traced and printed between rewrite and printing
                     generate(others[2])
@@ -195,6 +364,8 @@ def mode_sha(doc):
         else:
             raise ValueError(kind)
         res = dict(req=req, kind=kind, sha=[sha(t) for t in texts], tmpfree=all("_tmp" not in t for t in texts))
+        if struct is not None:
+            res["dtype_struct"] = struct
         if want_text:
             res["text"] = texts
         results.append(res)
